@@ -59,3 +59,76 @@ package fragmentation
 //@   modifies nothing
 //@   requires typed-nil: c.Payload != nil ==> as_nonnil(c.Payload)
 //@   ensures positive: result >= 1
+
+// ---------------------------------------------------------------------------
+// C19: forward-error-correction encoder (TS004 §9: parity matrix from PRBS23)
+// ---------------------------------------------------------------------------
+// TS004 prbs23: b0 = x & 1; b1 = (x & 0x20) >> 5; x = (x >> 1) + ((b0 ^ b1) << 22)
+//@ spec prbs23s(x) = (x >> 1) + ((((x & 1) ^ ((x >> 5) & 1))) << 22)
+//@ func prbs23
+//@   props C19
+//@   requires nonneg: x >= 0
+//@   ensures formula: result == prbs23s(x)
+//@   ensures nonneg: result >= 0 && result <= x / 2 + 4194304
+//@ func isPower2
+//@   props C19
+//@   ensures pow2: result <==> (num != 0 && num & (num - 1) == 0)
+// TS004 matrix_line(N, M): line = 0; m = is_power2(M) ? 1 : 0; x = 1 + 1001*N;
+//   for nb_coeff in 0 .. M/2-1: r = 1<<16; while r >= M { x = prbs23(x); r = x % (M+m) }; line[r] = 1
+// The selection is specified as this recurrence: its seed (seed), its step (prbs) and the
+// written cell (bits / only line[r] written) are the obligations. Termination of the inner
+// loop depends on the orbit of the generator and is not claimed.
+//@ func matrixLine
+//@   props C19
+//@   requires n-range: n >= 0 && n <= 4294967296
+//@   requires m-range: m >= 0 && m <= 4294967296
+//@   ensures len: len(result) == m
+//@   ensures fresh: fresh(result)
+//@   ensures bits: forall i int :: 0 <= i && i < m ==> (result[i] == 0 || result[i] == 1)
+//@   loop 0: invariant counter: nbCoeff >= 0 && nbCoeff <= m/2
+//@   loop 0: invariant seed: nbCoeff == 0 ==> x == 1 + 1001*n
+//@   loop 0: invariant xpos: x >= 0 && x <= 4404019298304
+//@   loop 0: invariant bits: forall i int :: 0 <= i && i < m ==> (line[i] == 0 || line[i] == 1)
+//@   loop 0: invariant zero-before-first: nbCoeff == 0 ==> forall i int :: 0 <= i && i < m ==> line[i] == 0
+//@   loop 0: modifies line[0:m]
+//@   loop 0: decreases m/2 - nbCoeff
+//@   loop 1: invariant xpos: x >= 0 && x <= 4404019298304
+//@   loop 1: invariant r-def: r == 65536 || (r >= 0 && r == x % (m + ite(m != 0 && m & (m-1) == 0, 1, 0)))
+//@   loop 1: step prbs: x == prbs23s(prev(x)) && r == x % (m + ite(m != 0 && m & (m-1) == 0, 1, 0))
+// Encode: systematic part (data fragments unchanged, in order), one parity fragment per
+// redundancy index y, accumulated from zero by XOR-ing exactly the rows x with line_{y+1}[x] == 1
+// (recurrence: init parity-zero, step xor-selected), nothing but fresh memory written.
+//@ func Encode
+//@   props C19
+//@   requires red-range: redundancy <= 4294967296
+//@   requires data-range: len(data) <= 4294967296 && fragmentSize <= 4294967296
+//@   modifies nothing
+//@   ensures invalid-size: (fragmentSize <= 0 || len(data) % fragmentSize != 0) ==> err != nil
+//@   ensures valid-size: (fragmentSize > 0 && len(data) % fragmentSize == 0) ==> err == nil
+//@   ensures count: err == nil ==> len(result0) == len(data)/fragmentSize + ite(redundancy > 0, redundancy, 0)
+//@   ensures row-len: err == nil ==> forall i int :: 0 <= i && i < len(result0) ==> len(result0[i]) == fragmentSize
+//@   ensures systematic: err == nil ==> forall i int :: 0 <= i && i < len(data)/fragmentSize ==> forall k int :: 0 <= k && k < fragmentSize ==> result0[i][k] == data[i*fragmentSize+k]
+//@   loop 0: invariant counter: i >= 0 && i <= len(data)/fragmentSize && fragmentSize > 0 && len(data) % fragmentSize == 0
+//@   loop 0: invariant rows: len(dataRows) == i
+//@   loop 0: invariant rows-fresh: (i == 0 ==> cap(dataRows) == 0) && (i > 0 ==> fresh(dataRows))
+//@   loop 0: invariant row-len: forall j int :: 0 <= j && j < i ==> len(dataRows[j]) == fragmentSize
+//@   loop 0: invariant row-view: forall j int :: 0 <= j && j < i ==> samebase(dataRows[j], data[j*fragmentSize:])
+//@   loop 0: decreases len(data)/fragmentSize - i
+//@   loop 1: invariant counter: y >= 0 && (y <= redundancy || redundancy <= 0) && (redundancy <= 0 ==> y == 0) && fragmentSize > 0 && w == len(data)/fragmentSize
+//@   loop 1: invariant rows: len(dataRows) == w + y
+//@   loop 1: invariant rows-fresh: (w + y == 0 ==> cap(dataRows) == 0) && (w + y > 0 ==> fresh(dataRows))
+//@   loop 1: invariant row-len: forall j int :: 0 <= j && j < w + y ==> len(dataRows[j]) == fragmentSize
+//@   loop 1: invariant row-view: forall j int :: 0 <= j && j < w ==> samebase(dataRows[j], data[j*fragmentSize:])
+//@   loop 1: decreases redundancy - y
+//@   loop 2: invariant counter: x >= 0 && x <= w && len(a) == w && len(s) == fragmentSize && fresh(s)
+//@   loop 2: invariant row-len: forall j int :: 0 <= j && j < w ==> len(dataRows[j]) == fragmentSize
+//@   loop 2: invariant parity-zero: x == 0 ==> forall k int :: 0 <= k && k < fragmentSize ==> s[k] == 0
+//@   loop 2: step next-row: x == prev(x) + 1
+//@   loop 2: step xor-selected: forall k int :: 0 <= k && k < fragmentSize ==> s[k] == prev(s[k] ^ ite(a[x] == 1, dataRows[x][k], 0))
+//@   loop 2: modifies s[0:fragmentSize]
+//@   loop 2: decreases w - x
+//@   loop 3: invariant counter: m >= 0 && m <= fragmentSize && x >= 0 && x < w && len(s) == fragmentSize && fresh(s) && len(dataRows[x]) == fragmentSize
+//@   loop 3: invariant done: forall k int :: 0 <= k && k < m ==> s[k] == entry(s[k]) ^ dataRows[x][k]
+//@   loop 3: invariant rest: forall k int :: m <= k && k < fragmentSize ==> s[k] == entry(s[k])
+//@   loop 3: modifies s[0:fragmentSize]
+//@   loop 3: decreases fragmentSize - m
